@@ -17,6 +17,7 @@ import (
 	"fmt"
 	"math/rand/v2"
 	"os"
+	"time"
 
 	"go.uber.org/zap"
 	"go.uber.org/zap/zapcore"
@@ -219,6 +220,10 @@ func roundRobin(step int, s *logsched.Sched, n int) int {
 	return r[step%len(r)]
 }
 
+// finalOnly (-final): judge only the quiescent state of every case (sc_case terms) — for code
+// whose step structure is not the model's.
+var finalOnly bool
+
 // ---------- Gallina ----------
 func gN(k uint64) string         { return fmt.Sprintf("%d", k) }
 func gFields(ks []uint64) string { return gal.ListOf(ks, gN) }
@@ -242,11 +247,22 @@ func gCop(o cop) string {
 	return "CSetLevel " + gal.Z(int64(o.Level))
 }
 
+// schedErr: a goroutine neither yielded nor returned (it blocks on something the instrumenter
+// does not know); the run stops generating cases, the plugin reports it.
+var schedErr string
+
 func emit(out *gal.Out, kind string, in initSpec, progs [][]cop, prefix []int, pick picker) {
 	if in.Fields == nil {
 		in.Fields = []uint64{}
 	}
+	if finalOnly {
+		emitFinal(out, kind, in, progs, prefix, pick)
+		return
+	}
 	sched, obs, done, errs := runCase(in, progs, prefix, pick)
+	if errs != "" {
+		schedErr = errs
+	}
 	t := "({| cc_init := " + gCore(in) + "; cc_progs := " +
 		gal.ListOf(progs, func(p []cop) string { return gal.ListOf(p, gCop) }) +
 		"; cc_sched := " + gal.ListOf(sched, func(t int) string { return fmt.Sprint(t) }) + "%nat" +
@@ -257,11 +273,14 @@ func emit(out *gal.Out, kind string, in initSpec, progs [][]cop, prefix []int, p
 // emitFinal runs prefix + round-robin completion and writes a final-state case (sc_case): only
 // the quiescent logger is judged, with the specification predicate final_ok — used when the
 // number of yields per call of the code under test differs from the model's programs.
-func emitFinal(out *gal.Out, kind string, in initSpec, progs [][]cop, prefix []int) {
+func emitFinal(out *gal.Out, kind string, in initSpec, progs [][]cop, prefix []int, pick picker) {
 	if in.Fields == nil {
 		in.Fields = []uint64{}
 	}
-	sched, obs, doneT, errs := runCaseX(in, progs, prefix, roundRobin, false)
+	sched, obs, doneT, errs := runCaseX(in, progs, prefix, pick, false)
+	if errs != "" {
+		schedErr = errs
+	}
 	done := errs == ""
 	for _, d := range doneT {
 		done = done && d
@@ -347,17 +366,22 @@ func suspicious(in initSpec, progs [][]cop, fin cobs) bool {
 // pair up to the step budget (depth-first over schedule prefixes, each prefix a fresh run) and
 // writes the quiescent states that look like a lost field / lost level, shortest schedule
 // first, for Coq to judge with final_ok.  Nothing about the number of yields per call is assumed.
-func search(out *gal.Out, budget, keep int) {
+func search(out *gal.Out, budget, keep int, limit time.Duration) {
+	deadline := time.Now().Add(limit)
+	timedOut := false
 	w := func(k uint64) cop { return cop{Op: "With", Fields: []uint64{k}} }
 	sl := func(l int) cop { return cop{Op: "SetLevel", Level: l} }
 	dbg := -1
 	inits := []initSpec{{Level: 0, Fields: []uint64{}}, {Level: 1, Fields: []uint64{9}, Wrap: &dbg}}
+	// smallest first: the four pairs of single calls (mixed pairs in both orders), then longer ones
 	catalogue := [][][]cop{
 		{{w(1)}, {w(2)}},
 		{{w(1)}, {sl(2)}},
+		{{sl(2)}, {w(1)}},
 		{{sl(-1)}, {sl(2)}},
 		{{w(1), w(3)}, {w(2)}},
 		{{w(1)}, {w(2), sl(2)}},
+		{{sl(2), w(1)}, {w(2)}},
 		{{w(1), sl(1)}, {sl(2), w(2)}},
 		{{{Op: "With"}, w(1)}, {w(2)}},
 	}
@@ -374,8 +398,13 @@ func search(out *gal.Out, budget, keep int) {
 		for _, in := range inits {
 			var dfs func(prefix []int)
 			dfs = func(prefix []int) {
+				if timedOut || time.Now().After(deadline) {
+					timedOut = true
+					return
+				}
 				sched, obs, doneT, errs := runCaseX(in, progs, prefix, nil, false)
 				if errs != "" {
+					schedErr, timedOut = errs, true
 					return
 				}
 				all := true
@@ -403,6 +432,9 @@ func search(out *gal.Out, budget, keep int) {
 			}
 			dfs(nil)
 		}
+		if len(hits) > 0 || timedOut {
+			break // the catalogue is ordered smallest first: a failing input of this size is enough
+		}
 	}
 	// shortest schedules, smallest programs first
 	for i := 1; i < len(hits); i++ {
@@ -417,7 +449,11 @@ func search(out *gal.Out, budget, keep int) {
 		writeFinal(out, "search", h.in, h.progs, h.sched, h.fin, true, "", explored)
 	}
 	if len(hits) == 0 && lastOK != nil {
-		writeFinal(out, "search-clean", lastOK.in, lastOK.progs, lastOK.sched, lastOK.fin, true, "", explored)
+		kind := "search-clean"
+		if timedOut {
+			kind = "search-timeout"
+		}
+		writeFinal(out, kind, lastOK.in, lastOK.progs, lastOK.sched, lastOK.fin, true, schedErr, explored)
 	}
 }
 
@@ -526,7 +562,9 @@ func main() {
 	in := flag.String("in", "", "replay: file with one {init, progs, prefix} JSON object per line")
 	final := flag.Bool("final", false, "replay: judge only the quiescent final state (sc_case terms)")
 	budget := flag.Int("budget", 12, "search: maximal schedule length")
+	limit := flag.Int("limit", 60, "search: time limit in seconds")
 	flag.Parse()
+	finalOnly = *final
 	out := gal.NewOut(*outp)
 	defer out.Close()
 	g := &gen{r: gal.NewRand(*seed), next: 1}
@@ -554,16 +592,12 @@ func main() {
 			if kind == "" {
 				kind = "replay"
 			}
-			if *final {
-				emitFinal(out, kind, c.Init, c.Progs, pre)
-			} else {
-				emit(out, kind, c.Init, c.Progs, pre, roundRobin)
-			}
+			emit(out, kind, c.Init, c.Progs, pre, roundRobin)
 		}
 	case "search":
-		search(out, *budget, 12)
+		search(out, *budget, 12, time.Duration(*limit)*time.Second)
 	default:
-		for i := 0; i < *n; i++ {
+		for i := 0; i < *n && schedErr == ""; i++ {
 			in, progs := g.progs()
 			emit(out, "random", in, progs, nil, g.picker(i%3))
 		}
